@@ -277,6 +277,12 @@ check:
 		return []error{fmt.Errorf("%s: no YangType defined for %s %s", Source(td), source, td.Name)}
 	}
 	y := *td.YangType
+	// y shares the backing arrays of its slices with the typedef it was
+	// copied from; copy those that are appended to below, so that two types
+	// based on one typedef do not overwrite each other's additions.
+	y.Pattern = append([]string(nil), y.Pattern...)
+	y.POSIXPattern = append([]string(nil), y.POSIXPattern...)
+	y.Type = append([]*YangType(nil), y.Type...)
 
 	y.Base = td.Type
 	t.YangType = &y
